@@ -83,6 +83,14 @@ def _c15_worker(case):
                 # only nodes reachable from the start; start = root reaches everything in plain histories
                 if all(is_plain(o) for o, *_ in snaps[: idx + 1]):
                     msgs.append(("true-but-incomplete", f"{op} returned True but unexpanded nodes remain")); break
+            if op[0] in ("aseeds", "min") and r == "true" and (op[0] == "aseeds" or op[1] in (None, 0)) and all(is_plain(o) for o, *_ in snaps[: idx + 1]):
+                # a complete attractor-seed / minimal-space expansion: every minimal trap space is an expanded leaf
+                succ_of = {i: [] for i in range(len(ns))}
+                for a_, b_, _ in es:
+                    succ_of[a_].append(b_)
+                leaves = sorted(x["space"] for i, x in enumerate(ns) if x["exp"] and not succ_of[i])
+                if leaves != sorted(mintraps):
+                    msgs.append(("true-but-minimal-traps-missing", f"{op} returned True but the expanded leaves {leaves} are not the minimal trap spaces {sorted(mintraps)}")); break
             if op[0] in ("bfs", "dfs", "min", "target") and r == "false":
                 size_lim = op[3] if op[0] in ("bfs", "dfs") else op[2]
                 other_lim = op[2] if op[0] in ("bfs", "dfs") else None
